@@ -46,6 +46,8 @@ def gen(seed, index):
         times.append(rng.choice(times))
     if r < 0.16:
         rng.shuffle(times)
+    if rng.random() < 0.15:
+        g.anonymise(t)          # leaves without a name: equal durations make distinct siblings ==
     return ["split_at", t, ign] + times
 
 
